@@ -102,6 +102,9 @@ var (
 	IntPred1 = map[string]func(int) bool{
 		"odd": func(x int) bool { return x%2 != 0 },
 		"gt1": func(x int) bool { return x > 1 },
+		// two closures made by ONE function literal (same code, other captured value)
+		"eq-1": intEq(1),
+		"eq-2": intEq(2),
 	}
 	IntPred2 = map[string]func(int, int) bool{
 		"lt": func(x, y int) bool { return x < y },
@@ -122,12 +125,20 @@ var (
 	StrPred1 = map[string]func(*string) bool{
 		"nil":      func(x *string) bool { return x == nil },
 		"nonempty": func(x *string) bool { return x != nil && len(*x) > 0 },
+		"eq-a":     strEq("a"),
+		"eq-b":     strEq("b"),
 	}
 	StrPred2 = map[string]func(*string, *string) bool{
 		"samenil": func(x, y *string) bool { return (x == nil) == (y == nil) },
 		"lt":      func(x, y *string) bool { return x != nil && y != nil && *x < *y },
 	}
 )
+
+func intEq(v int) func(int) bool { return func(x int) bool { return x == v } }
+
+func strEq(v string) func(*string) bool {
+	return func(x *string) bool { return x != nil && *x == v }
+}
 
 // Counter, when non-nil, is incremented by every registry predicate call made
 // through the wrappers below (used by C10/C11).
